@@ -75,7 +75,7 @@ def oracle_system(M, bnds, o=None, points=None, rng=None):
         fails.append((f"{what}: {desc}; matrix {M} bounds {bnds}", dict(op=what, M=M, bnds=[list(x) for x in bnds], **kw)))
     if o is None:
         try:
-            o = observe(mk_poly(M, bnds))
+            o = observe(mk_poly(M, bnds, narrow=True))
         except Exception as e:
             fail("observe", f"raised {type(e).__name__}: {e}")
             return fails, 0, 0
@@ -199,7 +199,7 @@ def d11_stream(res, rng, n_random):
     for M, bnds in systems:
         res.evaluations += 1
         try:
-            got = [int(v) for v in np.asarray(mk_poly(M, bnds).n_row_combinations).tolist()]
+            got = [int(v) for v in np.asarray(mk_poly(M, bnds, narrow=True).n_row_combinations).tolist()]
         except Exception as e:
             res.violation("oracle", f"n_row_combinations raised {type(e).__name__}: {e}; matrix {M} bounds {bnds}",
                           {"op": "n_row_combinations", "M": M, "bnds": [list(x) for x in bnds]})
@@ -231,7 +231,7 @@ def run(res, tier, seed):
         stream.append(gen_system(rng))
     for M, bnds, prof in stream:
         try:
-            o = observe(mk_poly(M, bnds))
+            o = observe(mk_poly(M, bnds, narrow=True))
         except Exception as e:
             res.violation("oracle", f"a C12 method raised {type(e).__name__}: {e} on matrix {M} bounds {bnds}",
                           {"op": "observe", "M": M, "bnds": [list(x) for x in bnds]})
@@ -303,7 +303,7 @@ def replay(payload):
     M, bnds = r["M"], [tuple(x) for x in r["bnds"]]
     fails = oracle_system(M, bnds, points=[r["point"]] if r.get("point") else None)[0]
     try:
-        o = observe(mk_poly(M, bnds))
+        o = observe(mk_poly(M, bnds, narrow=True))
         print("matrix", M, "bounds", bnds, "tighten_column_bounds", o["tcb"], "row_bounds", o["row_bounds"], "n_row_combinations", o["ncomb"])
     except Exception as e:
         print("matrix", M, "bounds", bnds, "raised", type(e).__name__, e)
